@@ -1,6 +1,7 @@
 """C06 - MATLAB overload guards, default expansion and C++ marshalling line up (Engines E, I, F)."""
 from .. import rules_flow as RF
 from .. import rules_inst as RI
+from .. import rules_ids as RID
 from .. import rules_matlab as RM
 
 ID = "C06"
@@ -42,4 +43,7 @@ def run(ctx, rep):
     # M15: the defaults the arities are expanded from survive instantiation: every rebuilt Argument keeps name and default (= C04 B11, C02 S5)
     rep.run(RI.rule_name_default_forwarding, ctx, rep, "M15")
     rep.run(RM.rule_guard_builders_by_evaluation, ctx, rep, "M16")
+    # M17 / M18: the .m branches and the C++ routines of sample declarations line up (ids, counts, positions, defaults) (= C05 I10, I11)
+    rep.run(RID.rule_call_sites_by_evaluation, ctx, rep, "M17")
+    rep.run(RID.rule_routines_by_evaluation, ctx, rep, "M18")
     rep.run(RF.rule_locals_defined, ctx, rep, "U1", packages=("gtwrap/matlab_wrapper",), min_functions=3)
